@@ -167,6 +167,10 @@ def main():
         open_keys.setdefault((c, rcv[0] if rcv else None), [])
     bounded_info = {}
     for (cname, recv), items in open_keys.items():
+        con_ = reg.contract_for(cname, recv)
+        if getattr(con_, 'standin', True) is False:
+            bounded_info[cname] = {'status': 'no bounded stand-in for this function (its environment cannot be built concretely)'}
+            continue
         bd = P.get('bounds', {}).get(cname, P.get('bounds', {}).get('*', {}))
         req = {'mode': 'enum', 'contract': cname, 'receiver': recv, 'bounds': bd, 'limit': 30000 if args.tier == 'quick' else 400000,
                'random': 40000 if args.tier == 'quick' else 400000, 'seed': seed}
